@@ -27,6 +27,7 @@ structure Frame (s s' : State) : Prop where
   valTok : s'.valTok = s.valTok
   period : s'.period = s.period
   nextUnbId : s'.nextUnbId = s.nextUnbId
+  blockFirstId : s'.blockFirstId = s.blockFirstId
   nextProp : s'.nextProp = s.nextProp
   wdAddr : s'.wdAddr = s.wdAddr
   props : s'.props = s.props
@@ -37,13 +38,14 @@ structure Frame (s s' : State) : Prop where
   vest : s'.vest = s.vest
 
 theorem Frame.refl (s : State) : Frame s s :=
-  ⟨rfl, rfl, rfl, rfl, rfl, rfl, rfl, rfl, rfl, rfl, rfl, rfl, rfl, rfl, rfl, rfl, rfl, rfl, rfl, rfl⟩
+  ⟨rfl, rfl, rfl, rfl, rfl, rfl, rfl, rfl, rfl, rfl, rfl, rfl, rfl, rfl, rfl, rfl, rfl, rfl, rfl, rfl, rfl⟩
 
 theorem Frame.trans {a b c : State} (h1 : Frame a b) (h2 : Frame b c) : Frame a c :=
   ⟨h2.now.trans h1.now, h2.unbondTime.trans h1.unbondTime, h2.depPeriod.trans h1.depPeriod,
    h2.votePeriod.trans h1.votePeriod, h2.minDeposit.trans h1.minDeposit, h2.maxEntries.trans h1.maxEntries,
    h2.vals.trans h1.vals, h2.hasKey.trans h1.hasKey, h2.bal.trans h1.bal, h2.valTok.trans h1.valTok,
-   h2.period.trans h1.period, h2.nextUnbId.trans h1.nextUnbId, h2.nextProp.trans h1.nextProp,
+   h2.period.trans h1.period, h2.nextUnbId.trans h1.nextUnbId, h2.blockFirstId.trans h1.blockFirstId,
+   h2.nextProp.trans h1.nextProp,
    h2.wdAddr.trans h1.wdAddr, h2.props.trans h1.props, h2.deposits.trans h1.deposits, h2.votes.trans h1.votes,
    h2.inactiveQ.trans h1.inactiveQ, h2.activeQ.trans h1.activeQ, h2.vest.trans h1.vest⟩
 
@@ -54,19 +56,19 @@ theorem frame_foldl {β : Type} (f : State → β → State) (hf : ∀ s x, Fram
   | cons x L ih => exact (hf s x).trans (ih _)
 
 theorem moveDelegation_frame (c : Cfg) (frm to : Addr) (s : State) (p) : Frame s (moveDelegation c frm to s p) :=
-  ⟨rfl, rfl, rfl, rfl, rfl, rfl, rfl, rfl, rfl, rfl, rfl, rfl, rfl, rfl, rfl, rfl, rfl, rfl, rfl, rfl⟩
+  ⟨rfl, rfl, rfl, rfl, rfl, rfl, rfl, rfl, rfl, rfl, rfl, rfl, rfl, rfl, rfl, rfl, rfl, rfl, rfl, rfl, rfl⟩
 
 theorem moveUbd_frame (c : Cfg) (frm to : Addr) (s : State) (p) : Frame s (moveUbd c frm to s p) := by
   unfold moveUbd
   refine Frame.trans (b := { s with ubds := _, ubdIdx := _ }) ?_
     (Frame.trans (frame_foldl _ (fun s e => ?_) _ _) (frame_foldl _ (fun s e => ?_) _ _))
-  all_goals exact ⟨rfl, rfl, rfl, rfl, rfl, rfl, rfl, rfl, rfl, rfl, rfl, rfl, rfl, rfl, rfl, rfl, rfl, rfl, rfl, rfl⟩
+  all_goals exact ⟨rfl, rfl, rfl, rfl, rfl, rfl, rfl, rfl, rfl, rfl, rfl, rfl, rfl, rfl, rfl, rfl, rfl, rfl, rfl, rfl, rfl⟩
 
 theorem moveRed_frame (c : Cfg) (frm to : Addr) (s : State) (p) : Frame s (moveRed c frm to s p) := by
   unfold moveRed
   refine Frame.trans (b := { s with reds := _, redSrcIdx := _, redDstIdx := _ }) ?_
     (Frame.trans (frame_foldl _ (fun s e => ?_) _ _) (frame_foldl _ (fun s e => ?_) _ _))
-  all_goals exact ⟨rfl, rfl, rfl, rfl, rfl, rfl, rfl, rfl, rfl, rfl, rfl, rfl, rfl, rfl, rfl, rfl, rfl, rfl, rfl, rfl⟩
+  all_goals exact ⟨rfl, rfl, rfl, rfl, rfl, rfl, rfl, rfl, rfl, rfl, rfl, rfl, rfl, rfl, rfl, rfl, rfl, rfl, rfl, rfl, rfl⟩
 
 theorem stakingExecute_frame (c : Cfg) (s : State) (frm to : Addr) : Frame s (stakingExecute c s frm to) := by
   unfold stakingExecute
@@ -433,6 +435,7 @@ theorem map_swS_id {β : Type} (l : List (β × Addr)) (h : ∀ p ∈ l, p.2 ≠
         simp [swS, sw_fix frm to p.2 (h p hp).1 (h p hp).2])
     _ = l := List.map_id l
 
+set_option maxHeartbeats 1000000 in
 /-- **the state after an accepted migration is the swapped image of the state before it** (with the target's prior
 coins handed to the source) -/
 theorem sim_init (c : Cfg) (hc1 : c.rewriteDelIdx = true) (hc2 : c.rewriteUnbId = true) (hb : c.bankAll = true)
@@ -446,7 +449,7 @@ theorem sim_init (c : Cfg) (hc1 : c.rewriteDelIdx = true) (hc2 : c.rewriteUnbId 
     wf.ubdQ_to, wf.redQ_nodup, wf.redQ_of, wf.redQ_to, wf.id_ubd, wf.id_red, wf.id_of, wf.id_to, wf.wd_frm, wf.wd_to,
     wf.wd_val, wf.dep, wf.vote, wf.vest_frm, wf.vest_to⟩
   refine ⟨fr.now, fr.unbondTime, fr.depPeriod, fr.votePeriod, fr.minDeposit, fr.maxEntries, fr.vals, fr.valTok,
-    fr.period, fr.nextUnbId, fr.nextProp, ?bal, ?dels, ?delIdx, ?si, ?ubds, ?ubdIdx, ?ubdQ, ?reds, ?rs, ?rd, ?redQ, ?unbId,
+    fr.period, fr.nextUnbId, fr.blockFirstId, fr.nextProp, ?bal, ?dels, ?delIdx, ?si, ?ubds, ?ubdIdx, ?ubdQ, ?reds, ?rs, ?rd, ?redQ, ?unbId,
     ?wd, ?props, ?dep, ?votes, fr.inactiveQ, fr.activeQ, ?vest⟩
   case bal =>
     intro a d
